@@ -756,6 +756,162 @@ def aggregate_with_slow_service_case(pr):
     return None
 
 
+def mixed_aggregate_failure_case(pr):
+    """test -> backend (aggregate) -> [db (service), migrations (build, fails after 1 s)]: test never starts"""
+    ts = {"db": {"service": SVC}, "migrations": {"build": 'echo "s migrations" >> "$ZLOG"\nsleep 1\nexit 1'}, "backend": {"dependencies": ["db", "migrations"]}, "backend_rev": {"dependencies": ["migrations", "db"]},
+          "test": {"dependencies": ["backend"], "build": logging_build("test")}, "test_rev": {"dependencies": ["backend_rev"], "build": logging_build("test_rev")}}
+    pr.write("zinoma.yml", yml(ts))
+    for root in ("test", "test_rev"):
+        pr.clear_log()
+        r = pr.run(root, timeout=30)
+        if r.timed_out or r.rc == 0:
+            return {"property": "C07", "expected": "migrations fails: `zinoma %s` exits non-zero" % root, "observed": "exit %s timed out %s" % (r.rc, r.timed_out), "zinoma": r.brief()}
+        if "s " + root in pr.log():
+            return {"property": ["C07", "C01"], "expected": "%s depends, through an aggregate that also holds a service, on migrations, which fails: it never starts" % root, "observed": "log %s" % pr.log(), "zinoma": r.brief()}
+    return None
+
+
+def crashing_service_case(pr):
+    """a service whose process exits non-zero while a build of the same one-shot run is still going: started once"""
+    ts = {"db": {"service": 'echo "pid svc $$" >> "$ZLOG"\nsleep 0.3\nexit 1'}, "slow": {"build": logging_build("slow", sleep=1.5)}, "app": {"dependencies": ["db", "slow"], "build": logging_build("app")}}
+    pr.write("zinoma.yml", yml(ts))
+    r = pr.run("app", timeout=30)
+    n = max(len(_pids(pr, "svc")), r.out.count("db - Starting service"))
+    if r.timed_out:
+        return {"property": "C04", "expected": "the run ends", "observed": "no exit in 30 s", "zinoma": r.brief()}
+    if n > 1:
+        return {"property": ["C08", "C11"], "expected": "in one one-shot invocation the service db is started at most once, also when its process dies", "observed": "%d starts" % n, "zinoma": r.brief()}
+    return None
+
+
+def watch_redundant_edge_case(pr):
+    """watch mode: top lists the service svc directly and also depends on mid, which depends on svc; svc waits for a slow
+    rebuild of gen; top's own input changes in that window: top does not start before svc has been restarted"""
+    pr.write("gsrc/g.txt", "g0")
+    pr.write("tsrc/t.txt", "t0")
+    svc = 'echo "start svc" >> "$ZLOG"\nsleep 60'
+    ts = {"gen": {"input": [{"paths": ["gsrc"]}], "build": logging_build("gen", sleep=2.0)}, "svc": {"dependencies": ["gen"], "service": svc},
+          "mid": {"dependencies": ["svc"], "build": logging_build("mid")}, "top": {"dependencies": ["svc", "mid"], "input": [{"paths": ["tsrc"]}], "build": logging_build("top")}}
+    pr.write("zinoma.yml", yml(ts))
+    p = pr.spawn("--watch", "top")
+    if not _wait_builds(pr, "top", 1):
+        return None
+    time.sleep(0.5)
+    pr.clear_log()
+    pr.edit("gsrc/g.txt", "g1")            # gen rebuilds for 2 s; svc is out of date meanwhile
+    if not pr.wait_for(lambda: "s gen" in pr.log(), WAIT):
+        return None
+    time.sleep(0.5)
+    pr.edit("tsrc/t.txt", "t1")            # top becomes due inside that window
+    pr.wait_for(lambda: "e top" in pr.log(), WAIT)
+    log = pr.log()
+    if "s top" in log and ("e gen" not in log or "start svc" not in log or log.index("s top") < log.index("start svc")):
+        return {"property": ["C01", "C11", "C06"], "expected": "top starts only after gen was rebuilt and svc restarted (top lists svc directly, and through mid)", "observed": "log %s" % log, "output": pr.output_of(p)[-400:]}
+    return None
+
+
+def watch_large_input_edit_at_start_case(pr):
+    """a large input (256 MiB sparse) edited just after the build script has read it: the change ends up built"""
+    os.makedirs(pr.path("data"))
+    with open(pr.path("data/big.bin"), "wb") as f:
+        f.truncate(256 * 1024 * 1024)
+        f.seek(256 * 1024 * 1024 - 10)
+        f.write(b"version-01")
+    pr.files["data/big.bin"] = "<256 MiB sparse file ending in version-01>"
+    t = {"input": [{"paths": ["data"]}], "output": [{"paths": ["out.txt"]}], "build": 'v=$(tail -c 10 data/big.bin)\necho "read $v" >> "$ZLOG"\nsleep 1\necho "$v" > out.txt\necho "e t" >> "$ZLOG"'}
+    pr.write("zinoma.yml", yml({"t": t}))
+    p = pr.spawn("--watch", "t")
+    if not pr.wait_for(lambda: pr.count("e t") >= 1, 60):
+        return None
+    time.sleep(1.0)
+    n = pr.count("read version-01")
+    with open(pr.path("data/big.bin"), "r+b") as f:
+        f.seek(256 * 1024 * 1024 - 10)
+        f.write(b"version-02")
+    if not pr.wait_for(lambda: pr.count("read version-02") >= 1, 60):
+        return None
+    # the moment the script has read version-02, change it again
+    with open(pr.path("data/big.bin"), "r+b") as f:
+        f.seek(256 * 1024 * 1024 - 10)
+        f.write(b"version-03")
+    pr.commands.append("rewrite the last bytes of data/big.bin (version-02, then version-03 right after the script read version-02)")
+    if not pr.wait_for(lambda: (pr.read("out.txt") or "").strip() == "version-03", 60):
+        return {"property": "C06", "expected": "the input was changed right after the build script had read it: once changes stop, out.txt is built from the last content (version-03)", "observed": "out.txt = %r; log %s" % ((pr.read("out.txt") or "").strip(), pr.log()[-6:]), "output": pr.output_of(p)[-400:]}
+    return None
+
+
+def service_restart_by_build_dependency_case(pr):
+    """watch mode: a service depends on a build; the build's input changes: the service is restarted, the old instance
+    stopped first, nothing left at exit"""
+    pr.write("gsrc/g.txt", "g0")
+    ts = {"gen": {"input": [{"paths": ["gsrc"]}], "build": logging_build("gen", sleep=0.3)}, "svc": {"dependencies": ["gen"], "service": SVC}}
+    pr.write("zinoma.yml", yml(ts))
+    p = pr.spawn("--watch", "svc")
+    if not pr.wait_for(lambda: len(_pids(pr, "svc")) >= 1, WAIT):
+        return None
+    time.sleep(0.6)
+    for k in range(2):
+        n = len(_pids(pr, "svc"))
+        pr.edit("gsrc/g.txt", "g%d-longer" % (k + 1))
+        if not pr.wait_for(lambda: len(_pids(pr, "svc")) > n, WAIT):
+            return {"property": ["C06", "C11"], "expected": "the build the service depends on was rebuilt: the service is restarted", "observed": "no restart in %ss; log %s" % (WAIT, pr.log()[-6:]), "output": pr.output_of(p)[-300:]}
+        time.sleep(0.6)
+    overlap = "overlap svc" in pr.log()
+    alive = [q for q in _pids(pr, "svc") if _alive(q)]
+    os.kill(p.pid, signal.SIGTERM)
+    pr.wait_exit(p, 8)
+    time.sleep(0.3)
+    left = [q for q in _pids(pr, "svc") if _alive(q)]
+    if overlap or len(alive) > 1:
+        return {"property": "C11", "expected": "a restart (caused by a rebuilt build dependency) stops the old instance before starting the new one", "observed": "instances alive together: %s; log %s" % (alive, [l for l in pr.log() if "svc" in l])}
+    if left:
+        return {"property": ["C10", "C11"], "expected": "no instance of the service left after zinoma exits", "observed": "pid(s) %s alive" % left}
+    return None
+
+
+def aggregate_service_and_its_dependent_case(pr):
+    """dev -> [migrate, db], migrate (build) -> db (service): `zinoma dev` keeps running like `zinoma migrate db`"""
+    ts = {"db": {"service": SVC}, "migrate": {"dependencies": ["db"], "build": logging_build("migrate")}, "lint": {"build": logging_build("lint")}, "dev": {"dependencies": ["migrate", "db"]}, "dev_rev": {"dependencies": ["db", "migrate"]},
+          "checks": {"dependencies": ["lint", "migrate"]}, "all": {"dependencies": ["checks", "db"]}}
+    pr.write("zinoma.yml", yml(ts))
+    for root in ("dev", "dev_rev", "all"):
+        pr.clear_log()
+        p = pr.spawn(root)
+        if not pr.wait_for(lambda: "e migrate" in pr.log(), WAIT):
+            pr.kill(p)
+            return None
+        time.sleep(1.5)
+        alive = p.poll() is None
+        if alive:
+            os.kill(p.pid, signal.SIGTERM)
+            pr.wait_exit(p, 8)
+        pr.kill(p)
+        if not alive:
+            return {"property": ["C20", "C11"], "expected": "`zinoma %s`: the aggregate lists the service db (and a build that depends on db): zinoma keeps running" % root, "observed": "zinoma exited with %s" % p.returncode, "output": pr.output_of(p)[-300:]}
+    return None
+
+
+def watch_nested_project_state_case(pr):
+    """watch mode: app::pack watches `vendor` (no filter); another zinoma builds a target of the project nested there: the
+    state it writes below vendor/lib/.zinoma does not trigger pack"""
+    pr.write("vendor/lib/src/l.txt", "l1")
+    pr.write("vendor/lib/zinoma.yml", yml({"gen": {"input": [{"paths": ["src"]}], "build": logging_build("gen")}}, name="lib"))
+    pr.write("zinoma.yml", yml({"pack": {"input": [{"paths": ["vendor"]}], "build": logging_build("pack")}}, name="app", imports={"lib": "vendor/lib"}))
+    r = pr.run("lib::gen")
+    pr.remove("vendor/lib/.zinoma")
+    pr.mkdir("vendor/lib/.zinoma")
+    p = pr.spawn("--watch", "pack")
+    if not _wait_builds(pr, "pack", 1):
+        return None
+    time.sleep(0.8)
+    n = pr.output_of(p).count("pack - Build")
+    pr.run("gen", cwd=pr.path("vendor/lib"))        # writes vendor/lib/.zinoma/gen.checksums
+    time.sleep(QUIET)
+    if pr.output_of(p).count("pack - Build") != n:
+        return {"property": ["C16", "C15"], "expected": "a state file written below vendor/lib/.zinoma (a directory named .zinoma under pack's input path) does not trigger pack", "observed": "%d more evaluation line(s) of pack" % (pr.output_of(p).count("pack - Build") - n), "output": pr.output_of(p)[-400:]}
+    return None
+
+
 def cases(seed, tier="quick"):
     C = lambda n, fn, what: Case("live", n, fn, what)
     return [
@@ -785,6 +941,13 @@ def cases(seed, tier="quick"):
         C("service-dependency", service_dependency_case, "service only depended on: up during the build, stopped at exit"),
         C("service-shared-deep", service_shared_deep_case, "service shared by a shallow and a deep dependent"),
         C("service-restart", service_restart_case, "restart stops the old instance first"),
+        C("service-restart-by-build-dependency", service_restart_by_build_dependency_case, "restart caused by a rebuilt build dependency"),
+        C("aggregate-service-and-its-dependent", aggregate_service_and_its_dependent_case, "an aggregate listing a service and a build that depends on it"),
+        C("watch-nested-project-state", watch_nested_project_state_case, "state writes of a nested project do not trigger the outer watcher"),
+        C("mixed-aggregate-failure", mixed_aggregate_failure_case, "a failing build next to a service behind an aggregate"),
+        C("crashing-service", crashing_service_case, "a service that dies during a one-shot run"),
+        C("watch-redundant-edge", watch_redundant_edge_case, "a direct dependency that is also reachable through another one, in watch mode"),
+        C("watch-large-input-edit-at-start", watch_large_input_edit_at_start_case, "a large input edited right after the script read it"),
         C("aggregate-with-slow-service", aggregate_with_slow_service_case, "a service with a slow prerequisite behind an aggregate with builds"),
         C("service-up-on-every-rebuild", service_up_on_every_rebuild_case, "the service is up on every re-build of its dependent"),
         C("service-beside-nested-aggregate", service_beside_nested_aggregate_case, "keep-alive with a service next to a deep aggregate"),
